@@ -1,19 +1,265 @@
-import Dashu.Proofs.Cross.Filter
+import Dashu.Proofs.Cross.Dispatch
+import Dashu.Proofs.Cross.Counter
+import Dashu.Proofs.Cross.Spec
+import Dashu.Proofs.Cross.HashProofs
 /-
   C14 — Cross-type numeric comparison and hashing agree with exact values.
 
-  Property theorems only (helper lemmas live in `Dashu/Proofs/Cross`).  The comparison code consults
-  f32 log₂ estimates to skip exact work; the estimators are a PARAMETER (`Oracle`) and every theorem
-  is proved for every oracle satisfying the enclosure hypothesis `Oracle.Sound`
-  (`lb ≤ log₂|x| ≤ ub`, `Proofs/Cross/Encl.lean`): the estimate path and the exact path cannot
-  disagree.  The specification side is `XVal.cmp` on the exact values (`Num.value`).
+  Property theorems only (helper lemmas live in `Dashu/Proofs/Cross`).  Everything is about the
+  definitions the driver `drive_cross` executes (`Dashu/Model/Cross/{Num,Ord,Oracle,Hash}.lean`).
+
+  * The comparison code consults f32 log₂ estimates (`log2_bounds`, `digits_ub`) to skip exact work.
+    The estimators are a PARAMETER (`Oracle`); every theorem is proved FOR EVERY ORACLE satisfying
+    the enclosure hypothesis `Oracle.Sound` (`lb ≤ log₂|x| ≤ ub`, `Proofs/Cross/Encl.lean`): the
+    estimate path and the exact path cannot disagree.  The two oracles the driver instantiates are
+    proved sound (`coarse_sound`, `noFilter_sound`); the real f32 estimator is checked against the
+    same hypothesis on every generated input by the harness op `log2encl`.
+  * Specification side: `XVal.cmp` / `XVal.absCmp` on the exact values `Num.value` — the order of
+    the exact rationals (`spec_lt/eq/gt`), NaN incomparable, `-0.0 = 0`, `±∞` at the ends.
+  * Where the code at the pinned commit is wrong the model mirrors it, the theorem is `…_partial`
+    with the weakest input hypothesis we could state that excludes the defect class, the full
+    statement is kept as a comment, and a `…_counterexample` proves the hypothesis is needed.
+    The same predicates key the entries of `known_findings.jsonl`.
 -/
 namespace Dashu.Props.C14
 open Dashu.Model.Cross
 
-/-- float/src/cmp.rs `repr_cmp_ubig::<B, false>` (NumOrd FBig/Repr × UBig, unsigned primitives) -/
+-- ================================================================== the specification is the order of ℚ
+
+/-- `XVal.cmp` on finite values is `<` / `=` / `>` of the exact rationals `n/d`. -/
+theorem spec_lt {n1 n2 : Int} {d1 d2 : Nat} (h1 : 0 < d1) (h2 : 0 < d2) :
+    XVal.cmp (.fin n1 d1) (.fin n2 d2) = some .lt ↔ fracQ n1 d1 < fracQ n2 d2 := cmp_fin_lt h1 h2
+theorem spec_eq {n1 n2 : Int} {d1 d2 : Nat} (h1 : 0 < d1) (h2 : 0 < d2) :
+    XVal.cmp (.fin n1 d1) (.fin n2 d2) = some .eq ↔ fracQ n1 d1 = fracQ n2 d2 := cmp_fin_eq h1 h2
+theorem spec_gt {n1 n2 : Int} {d1 d2 : Nat} (h1 : 0 < d1) (h2 : 0 < d2) :
+    XVal.cmp (.fin n1 d1) (.fin n2 d2) = some .gt ↔ fracQ n2 d2 < fracQ n1 d1 := cmp_fin_gt h1 h2
+
+/-- the value of a finite float is the rational `signif · B^exp` -/
+theorem float_value_rat {B : Nat} (hB : 2 ≤ B) (s e : Int) :
+    fracQ (floatFrac B s e).1 (floatFrac B s e).2 = (s : ℚ) * (B : ℚ) ^ e := floatFrac_rat hB s e
+
+/-- magnitudes: the spec of `AbsOrd` compares `|n/d|` -/
+theorem abs_value_rat (n : Int) (d : Nat) : fracQ (n.natAbs : Int) d = |fracQ n d| := abs_fin n d
+
+-- ================================================================== the estimate-oracle hypothesis
+
+/-- for a positive magnitude and finite bounds, the enclosure hypothesis is literally
+    `lb ≤ log₂ v ≤ ub` -/
+theorem enclosure_is_log2 {v : ℝ} (hv : 0 < v) (lo hi : ℚ) :
+    Encl v (.fin lo, .fin hi) ↔ (lo : ℝ) ≤ Real.logb 2 v ∧ Real.logb 2 v ≤ (hi : ℝ) :=
+  encl_iff_logb hv lo hi
+
+/-- the only consequence the code draws from the estimates -/
+theorem filter_sound {v1 v2 : ℝ} {b1 b2 : EB × EB} (h1 : Encl v1 b1) (h2 : Encl v2 b2)
+    (h : EB.lt b1.2 b2.1 = true) : v1 < v2 := Encl.sep h1 h2 h
+
+/-- the oracles the driver runs satisfy the hypothesis (so the theorems below apply to every
+    line the driver prints) -/
+theorem coarse_sound : Oracle.coarse.Sound := Oracle.coarse_sound
+theorem noFilter_sound : Oracle.noFilter.Sound := Oracle.noFilter_sound
+
+-- ================================================================== NumOrd, pair by pair (full)
+
+/-- float/src/cmp.rs `repr_cmp_ubig::<B, false>` (FBig/Repr × UBig, unsigned primitives) -/
 theorem float_cmp_ubig {o : Oracle} (ho : o.Sound) {B : Nat} (hB : 2 ≤ B) (s e : Int) (r p : Nat) :
     some (floatReprCmpUbig o false B s e r) = XVal.cmp (Num.fbig B s e p).value (Num.ubig r).value :=
   floatReprCmpUbig_spec ho hB s e r p
+
+/-- float/src/cmp.rs `repr_cmp_ibig::<B, false>` (FBig/Repr × IBig, signed primitives) -/
+theorem float_cmp_ibig {o : Oracle} (ho : o.Sound) {B : Nat} (hB : 2 ≤ B) (s e r : Int) (p : Nat) :
+    some (floatReprCmpIbig o false B s e r) = XVal.cmp (Num.fbig B s e p).value (Num.ibig r).value :=
+  floatReprCmpIbig_spec ho hB s e r p
+
+/-- float/src/third_party/num_order.rs `NumOrd<Repr<B2>> for Repr<B1>` (FBig × FBig, any two bases,
+    any precisions and rounding modes) -/
+theorem float_cmp_float {o : Oracle} (ho : o.Sound) {B1 B2 : Nat} (hB1 : 2 ≤ B1) (hB2 : 2 ≤ B2)
+    (s1 e1 s2 e2 : Int) (p1 p2 : Nat) (w1 : FWf s1 e1) (w2 : FWf s2 e2) :
+    some (reprNumCmp o B1 s1 e1 B2 s2 e2)
+      = XVal.cmp (Num.fbig B1 s1 e1 p1).value (Num.fbig B2 s2 e2 p2).value :=
+  reprNumCmp_spec ho hB1 hB2 s1 e1 s2 e2 p1 p2 w1 w2
+
+/-- rational/src/cmp.rs `repr_cmp_ubig::<false>`, `repr_cmp_ibig::<false>`,
+    `with_float::repr_cmp_fbig::<B, false>`, `repr_cmp::<false>` (RBig/Relaxed × UBig, IBig, FBig,
+    each other) -/
+theorem ratio_cmp_ubig {o : Oracle} (ho : o.Sound) (n : Int) {d : Nat} (hd : 0 < d) (r : Nat) :
+    some (ratReprCmpUbig o false n d r) = XVal.cmp (.fin n d) (.fin (r : Int) 1) :=
+  ratReprCmpUbig_spec ho n hd r
+theorem ratio_cmp_ibig {o : Oracle} (ho : o.Sound) (n : Int) {d : Nat} (hd : 0 < d) (r : Int) :
+    some (ratReprCmpIbig o false n d r) = XVal.cmp (.fin n d) (.fin r 1) :=
+  ratReprCmpIbig_spec ho n hd r
+theorem ratio_cmp_float {o : Oracle} (ho : o.Sound) (n : Int) {d : Nat} (hd : 0 < d) {B : Nat}
+    (hB : 2 ≤ B) (s e : Int) (p : Nat) :
+    some (ratReprCmpFbig o false n d B s e) = XVal.cmp (.fin n d) (Num.fbig B s e p).value :=
+  ratReprCmpFbig_spec ho n hd hB s e p
+theorem ratio_cmp_ratio (n1 : Int) {d1 : Nat} (h1 : 0 < d1) (n2 : Int) {d2 : Nat} (h2 : 0 < d2) :
+    some (ratReprCmp false n1 d1 n2 d2) = XVal.cmp (.fin n1 d1) (.fin n2 d2) :=
+  ratReprCmp_spec n1 h1 n2 h2
+theorem ratio_eq_ratio (abs : Bool) (n1 : Int) {d1 : Nat} (h1 : 0 < d1) (n2 : Int) {d2 : Nat}
+    (h2 : 0 < d2) :
+    ratReprEq abs n1 d1 n2 d2 = ((if abs then XVal.absCmp (.fin n1 d1) (.fin n2 d2)
+      else XVal.cmp (.fin n1 d1) (.fin n2 d2)) == some .eq) :=
+  ratReprEq_spec abs n1 h1 n2 h2
+
+-- ================================================================== NumOrd with primitive floats (partial)
+
+/-  FULL statement (FALSE at the pinned commit — defects A and F):
+      theorem num_ord_exact (ho : o.Sound) (x y : Num) (wx : x.WF) (wy : y.WF)
+        (h : numPartialCmp o x y = some r) : r = XVal.cmp x.value y.value
+    It fails exactly on
+      A: a zero UBig/IBig/FBig/RBig/Relaxed against a positive f32/f64 below 1/2 (1/4 for rationals):
+         `bit_len(0) = 0` is used as a logarithm;                      (`defectA`)
+      F: an IBig against the infinity of its own sign: `-sign * Ordering::Less`.   (`defectF`)  -/
+
+/-- NumOrd over the WHOLE table of implemented pairs (UBig, IBig, FBig⟨any B⟩, RBig, Relaxed, all
+    primitive integers, f32, f64; both argument orders): `num_partial_cmp` returns the order of the
+    exact values (`none` iff NaN) for every sound oracle — PARTIAL: outside defect classes A and F. -/
+theorem num_ord_exact_partial {o : Oracle} (ho : o.Sound) (x y : Num) (wx : x.WF) (wy : y.WF)
+    (hd : numCmpDefect x y = none) {r : Option Ordering} (h : numPartialCmp o x y = some r) :
+    r = XVal.cmp x.value y.value :=
+  numPartialCmp_partial ho x y wx wy hd h
+
+/-- `num_eq` (incl. the `repr_eq` override for RBig × Relaxed) — PARTIAL like `num_ord_exact_partial` -/
+theorem num_eq_exact_partial {o : Oracle} (ho : o.Sound) (x y : Num) (wx : x.WF) (wy : y.WF)
+    (hd : numCmpDefect x y = none) {b : Bool} (h : numEq o x y = some b) :
+    b = (XVal.cmp x.value y.value == some .eq) :=
+  numEq_partial ho x y wx wy hd h
+
+/-- the estimate path and the exact path cannot disagree: any two sound oracles give the same
+    answer (in particular the bit-length oracle and the never-filtering one the driver runs) -/
+theorem num_ord_oracle_independent {o1 o2 : Oracle} (h1 : o1.Sound) (h2 : o2.Sound) (x y : Num)
+    (wx : x.WF) (wy : y.WF) (hd : numCmpDefect x y = none) {r1 r2 : Option Ordering}
+    (e1 : numPartialCmp o1 x y = some r1) (e2 : numPartialCmp o2 x y = some r2) : r1 = r2 := by
+  rw [numPartialCmp_partial h1 x y wx wy hd e1, numPartialCmp_partial h2 x y wx wy hd e2]
+
+/-- defect A is real: `UBig::ZERO.num_partial_cmp(&2^-5)` is `Greater` in the mirrored code -/
+theorem num_ord_zero_counterexample :
+    ubigNumOrdFloat .f64 0 (.fin (2 ^ 52) (-57)) = some .gt ∧
+      XVal.cmp (.fin 0 1) (decodedValue (.fin (2 ^ 52) (-57))) = some .lt ∧
+      defectA (.nat 0) (2 ^ 52) (-57) = true ∧ (Decoded.fin (2 ^ 52) (-57)).InRange .f64 :=
+  ubigNumOrdFloat_counterexample
+
+/-- defect F is real: `IBig 5` against `+∞` is `Greater` in the mirrored code -/
+theorem num_ord_inf_counterexample :
+    ibigNumOrdFloat .f64 5 (.inf false) = some .gt ∧
+      XVal.cmp (.fin 5 1) (decodedValue (.inf false)) = some .lt ∧ defectF (.int 5) false = true :=
+  ibigNumOrdFloat_inf_counterexample
+
+/-- every decoded f32/f64 meets the range hypothesis used by the "bigger than the max float" step -/
+theorem decoded_in_range (t : FloatTy) (bits : Nat) : (decode t bits).InRange t := decode_inRange t bits
+
+-- ================================================================== AbsOrd
+
+/-  FULL statement (FALSE at the pinned commit — defect B):
+      theorem abs_ord_exact (ho : o.Sound) (x y) (wx) (wy) (px) (py)
+        (h : absCmp o x y = some r) : some r = XVal.absCmp x.value y.value
+    It fails for a finite FBig against a UBig/IBig when the significand (or the IBig) is negative and
+    the estimates overlap: the exact step of `repr_cmp_ubig/ibig::<B, true>` compares signed values. -/
+
+/-- AbsOrd over the whole table (UBig, IBig, FBig of one base, FBig × UBig/IBig, RBig/Relaxed ×
+    everything): the order of the magnitudes for every sound oracle — PARTIAL: outside defect B. -/
+theorem abs_ord_exact_partial {o : Oracle} (ho : o.Sound) (x y : Num) (wx : x.WF) (wy : y.WF)
+    (px : x.PrecOK) (py : y.PrecOK) (hd : absCmpDefect x y = none) {r : Ordering}
+    (h : absCmp o x y = some r) : some r = XVal.absCmp x.value y.value :=
+  absCmp_partial ho x y wx wy px py hd h
+
+/-- defect B is real, with a sound oracle: `FBig(-5).abs_cmp(UBig 5) = Less`,
+    `FBig(5).abs_cmp(IBig -5) = Greater` -/
+theorem abs_ord_counterexample :
+    Oracle.noFilter.Sound ∧ floatReprCmpUbig Oracle.noFilter true 2 (-5) 0 5 = .lt ∧
+      XVal.absCmp (Num.fbig 2 (-5) 0 3).value (Num.ubig 5).value = some .eq :=
+  floatReprCmpUbig_abs_counterexample
+theorem abs_ord_ibig_counterexample :
+    Oracle.noFilter.Sound ∧ floatReprCmpIbig Oracle.noFilter true 2 5 0 (-5) = .gt ∧
+      XVal.absCmp (Num.fbig 2 5 0 3).value (Num.ibig (-5)).value = some .eq :=
+  floatReprCmpIbig_abs_counterexample
+
+/-- `AbsOrd for FBig` / `Ord for FBig` (`repr_cmp_same_base` with its exponent+precision and
+    exponent+digits shortcuts) — full -/
+theorem float_abs_cmp_same_base {o : Oracle} (ho : o.Sound) {B : Nat} (hB : 2 ≤ B)
+    (ls le rs re : Int) (lp rp : Nat) (hp1 : PrecOK B ls lp) (hp2 : PrecOK B rs rp) :
+    some (reprCmpSameBase o true B ls le rs re (some (lp, rp)))
+      = XVal.absCmp (Num.fbig B ls le lp).value (Num.fbig B rs re rp).value :=
+  reprCmpSameBase_abs_spec ho hB ls le rs re lp rp hp1 hp2
+
+/-- core `Ord`/`PartialOrd` of two numbers of one type — full -/
+theorem ord_exact {o : Oracle} (ho : o.Sound) (x y : Num) (wx : x.WF) (wy : y.WF)
+    (px : x.PrecOK) (py : y.PrecOK) {r : Ordering} (h : ordCmp o x y = some r) :
+    some r = XVal.cmp x.value y.value :=
+  ordCmp_spec ho x y wx wy px py h
+
+/-- rational AbsOrd — full -/
+theorem ratio_abs_cmp_ratio (n1 : Int) {d1 : Nat} (h1 : 0 < d1) (n2 : Int) {d2 : Nat} (h2 : 0 < d2) :
+    some (ratReprCmp true n1 d1 n2 d2) = XVal.absCmp (.fin n1 d1) (.fin n2 d2) :=
+  ratReprCmp_abs_spec n1 h1 n2 h2
+theorem ratio_abs_cmp_float {o : Oracle} (ho : o.Sound) (n : Int) {d : Nat} (hd : 0 < d) {B : Nat}
+    (hB : 2 ≤ B) (s e : Int) (p : Nat) :
+    some (ratReprCmpFbig o true n d B s e) = XVal.absCmp (.fin n d) (Num.fbig B s e p).value :=
+  ratReprCmpFbig_abs_spec ho n hd hB s e p
+
+-- ================================================================== NumHash
+
+/-- `M = 2^127 - 1` is prime (the feed lives in the field `ℤ/M`) -/
+theorem mersenne127_prime : Nat.Prime M127 := M127_prime
+
+/-- every impl feeds the canonical hash of its exact value `n/d` (`hashQ`: `±(|n| mod M)·(d mod M)⁻¹`),
+    whenever the denominator is a unit mod `M` -/
+theorem hash_is_function_of_value {x : Num} (hx : x.HashOK) {n : Int} {d : Nat}
+    (vx : x.value = .fin n d) : numHashFeed x = hashQ n d ∧ ¬ M127 ∣ d :=
+  numHashFeed_eq_hashQ hx vx
+
+/-  FULL statement (FALSE at the pinned commit — defect C):
+      theorem num_hash_value (x y) (0 < den) (equal values) : numHashFeed x = numHashFeed y  -/
+
+/-- NumHash: numerically equal numbers of any two types (UBig, IBig, FBig⟨B⟩, RBig, Relaxed, every
+    primitive integer, f32, f64) feed the same `i128` — PARTIAL: rational arguments must have a
+    stored denominator not divisible by `M` (`Num.HashOK`). -/
+theorem num_hash_value_partial {x y : Num} (hx : x.HashOK) (hy : y.HashOK) {n1 n2 : Int} {d1 d2 : Nat}
+    (vx : x.value = .fin n1 d1) (vy : y.value = .fin n2 d2) (h : n1 * d2 = n2 * d1) :
+    numHashFeed x = numHashFeed y :=
+  numHash_value hx hy vx vy h
+
+/-- the `M | den` corner is NOT consistent: the reduced `RBig 1/1` and the non-reduced
+    `Relaxed M/M` are equal numbers with different feeds (1 vs the INF constant, 0). -/
+theorem num_hash_corner_counterexample :
+    numHashFeed (.rbig 1 1) ≠ numHashFeed (.relaxed (M127 : Int) M127) ∧
+      (1 : Int) * (M127 : Nat) = (M127 : Int) * (1 : Nat) :=
+  ⟨ratHash_corner_counterexample, ratHash_corner_same_value.2.2⟩
+
+/-- REQUIRED behaviour (what the proposed fix implements): after cancelling the common factor `M`
+    the feed is a function of the value for ALL rationals … -/
+theorem num_hash_canon_value {x y : Num} (hx : x.HashOKCanon) (hy : y.HashOKCanon) {n1 n2 : Int}
+    {d1 d2 : Nat} (vx : x.value = .fin n1 d1) (vy : y.value = .fin n2 d2) (h : n1 * d2 = n2 * d1) :
+    numHashFeedCanon x = numHashFeedCanon y :=
+  numHashCanon_value hx hy vx vy h
+
+/-- … and it differs from the code only when `M` divides BOTH stored parts (so the corner is
+    consistent among reduced `RBig`s, and between an `RBig` and a `Relaxed` that merely has
+    `M | den`). -/
+theorem num_hash_canon_eq_code {n : Int} {d : Nat} (h : ¬ (M127 ∣ d ∧ (M127 : Int) ∣ n ∧ n ≠ 0)) :
+    ratHashCanon n d = ratHash n d :=
+  ratHashCanon_eq_ratHash h
+
+-- ================================================================== non-vacuity / concrete instances
+
+/-- 2.5 as FBig base 10 (`25·10⁻¹`) equals RBig 5/2; NaN is incomparable; `-0.0 = 0`;
+    FBig `+∞` equals f64 `+∞`; a huge exponent is decided without materialising it. -/
+example : numPartialCmp Oracle.coarse (.fbig 10 25 (-1) 2) (.rbig 5 2) = some (some .eq) := by
+  decide +kernel
+example : numPartialCmp Oracle.coarse (.ubig 5) (.pfloat .f64 0x7ff8000000000000) = some none := by
+  decide +kernel
+example : numPartialCmp Oracle.coarse (.ibig 0) (.pfloat .f64 0x8000000000000000) = some (some .eq) := by
+  decide +kernel
+example : numPartialCmp Oracle.coarse (.fbig 2 0 1 0) (.pfloat .f32 0x7f800000) = some (some .eq) := by
+  decide +kernel
+example : numPartialCmp Oracle.coarse (.fbig 10 1 (10 ^ 15) 1) (.ubig 5) = some (some .gt) := by
+  decide +kernel
+example : (Num.fbig 10 25 (-1) 2).WF ∧ (Num.rbig 5 2).WF ∧
+    numCmpDefect (.fbig 10 25 (-1) 2) (.rbig 5 2) = none := by
+  refine ⟨⟨by norm_num, fun h => absurd h (by norm_num)⟩, by norm_num [Num.WF], by decide⟩
+example : numHashFeed (.fbig 10 25 (-1) 2) = numHashFeed (.pfloat .f64 0x4004000000000000) :=
+  num_hash_value_partial (x := .fbig 10 25 (-1) 2) (y := .pfloat .f64 0x4004000000000000)
+    ⟨by norm_num, by norm_num [M127]⟩ (by norm_num [Num.HashOK, FloatTy.mantBits, FloatTy.expBits])
+    (n1 := 25) (d1 := 10) (n2 := 5 * 2 ^ 50) (d2 := 2 ^ 51) (by rfl) (by rfl)
+    (by norm_num)
 
 end Dashu.Props.C14
